@@ -1244,6 +1244,57 @@ func c02GenErr(r *gen.Rand) *c02Err {
 	return e
 }
 
+// c02ClassMsg: an error message with at least one character of every byte class a protocol encodes
+// differently: control bytes below 0x10 (tab, LF, CR among them), 0x10..0x1F, NUL, space, '%' (alone and
+// in front of hex digits), DEL, '+', two-, three- and four-byte UTF-8, plain ASCII — in a seeded order.
+// (gRPC / gRPC-Web percent-encode grpc-message byte by byte, Connect puts it into JSON, the reference
+// server writes both by hand when the error comes with response headers.)
+func c02ClassMsg(r *gen.Rand) string {
+	low := []string{"\t", "\n", "\r", "\x01", "\x07", "\x0b", "\x0f", "\r\n"}
+	segs := []string{
+		gen.Pick(r, low), gen.Pick(r, low),
+		gen.Pick(r, []string{"\x10", "\x1b", "\x1f"}),
+		gen.Pick(r, []string{" ", "  ", " a "}),
+		gen.Pick(r, []string{"%", "100%", "%41", "%0A", "%%", "%zz"}),
+		"\x7f",
+		gen.Pick(r, []string{"+", "a+b", "&=?#;/"}),
+		gen.Pick(r, []string{"é", "ß", "ü"}),
+		gen.Pick(r, []string{"☃", "€", "世界"}),
+		gen.Pick(r, []string{"😀", "𝄞"}),
+		gen.Pick(r, []string{"step 1 failed:", "disk", "OK", "~tilde!"}),
+	}
+	if r.Chance(1, 2) {
+		segs = append(segs, "\x00")
+	}
+	for i := len(segs) - 1; i > 0; i-- {
+		j := r.Intn(i + 1)
+		segs[i], segs[j] = segs[j], segs[i]
+	}
+	return strings.Join(segs, "")
+}
+
+// c02ClassErrTC: a case of the given stream type whose definition is an error WITH response headers and
+// trailers (the shape for which the reference server builds a gRPC / gRPC-Web error response by hand)
+// and an error message of every byte class; for the streaming definitions with or without responses
+// before the error
+func c02ClassErrTC(r *gen.Rand, st string) c02TC {
+	var tc c02TC
+	for try := 0; ; try++ {
+		nResp := 0
+		if st != "unary" && st != "clientStream" && r.Bool() {
+			nResp = r.Range(1, 2)
+		}
+		tc = c02GenTC(r, st, 1, nResp, true, true)
+		if tc.HasDef && len(tc.Def.Hdrs) > 0 && len(tc.Def.Trls) > 0 && tc.Def.Err != nil || try > 50 {
+			break
+		}
+	}
+	tc.LaterDefs = nil
+	m := c02ClassMsg(r)
+	tc.Def.Err.Msg = &m
+	return tc
+}
+
 func c02GenData(r *gen.Rand) string {
 	switch r.Intn(5) {
 	case 0:
@@ -1654,6 +1705,11 @@ func runC02(c *gen.Ctx) error {
 				in.Cases = append(in.Cases, c02GenTC(r, "fullDuplex", sh[0], sh[1], sh[2] == 1, false))
 			}
 			in.Cases = append(in.Cases, c02GenTC(r, "halfDuplex", 3, 0, true, false), c02GenTC(r, "clientStream", 3, 0, true, false), c02GenTC(r, "unary", 1, 1, false, false))
+			// every stream type: an error with response headers and trailers and a message of every byte
+			// class (mode client: the reference-mode reference server and the grpc-go server, all protocols)
+			for _, st := range c02Sts {
+				in.Cases = append(in.Cases, c02ClassErrTC(rx, st))
+			}
 		} else {
 			minReq := 0
 			if in.Mode == "client" || in.Mode == "grpcclient" {
@@ -1662,6 +1718,10 @@ func runC02(c *gen.Ctx) error {
 			for i := 0; i < perRun; i++ {
 				in.Cases = append(in.Cases, c02Decorate(rg, c02RandomTC(r, true, minReq)))
 			}
+			// in every run: a unary error with response headers and a message of every byte class (the
+			// reference server writes this response by hand under gRPC / gRPC-Web), and the same for one
+			// more stream type in turn
+			in.Cases = append(in.Cases, c02ClassErrTC(rx, "unary"), c02ClassErrTC(rx, c02Sts[1+k%4]))
 			// cases that state their expected response in full — an error definition restated with its
 			// details and the request info, or one departure from it; other allowed error codes that do /
 			// do not cover a wrong code: must pass / FAIL as `agreeX` says
